@@ -144,7 +144,16 @@ def run_case(i, seed, tier):
     else:
         profile = ['churn', 'grow', 'links', 'churn'][i % 4]
         h = common.History(cfg, cs, profile, max_size=4000)
-        if i % 5 == 0:
+        if i % 10 == 3:
+            # descriptor areas ending exactly at / just past a sector boundary, the entry that crosses it
+            # being a file, symbolic link, directory or further name of a file
+            h.sess.close()
+            cfg, sops = common.special_layout(g, ['udf-exact-fill', 'udf-big-dir', 'udf-exact-fill'][(i // 10) % 3])
+            h = common.History(cfg, cs, profile, max_size=4000)
+            for op in sops:
+                h.apply(op)
+            counters['boundary_layouts'] = 1
+        elif i % 5 == 0:
             # a directory with many identifiers, then shrink
             d = {'op': 'add_directory', 'udf_path': '/many'}
             h.apply(d)
